@@ -12,19 +12,7 @@ use meshless_voronoi::{ConvexCell, ConvexCellMarker, Voronoi, VoronoiIntegrator}
 use std::collections::BTreeMap;
 
 fn masks_for(n: usize, max_n: usize) -> Vec<Option<Vec<bool>>> {
-    let mut m: Vec<Option<Vec<bool>>> = vec![None];
-    if n <= max_n {
-        m.extend(all_masks(n).into_iter().map(Some));
-    } else {
-        // deviation-bounded: all masks with <= 2 active or <= 2 inactive
-        for mk in all_masks(n) {
-            let a = mk.iter().filter(|&&b| b).count();
-            if a <= 2 || n - a <= 2 {
-                m.push(Some(mk));
-            }
-        }
-    }
-    m
+    masks_menu(n, max_n)
 }
 
 fn bits_eq(a: DVec3, b: DVec3) -> bool {
